@@ -42,11 +42,11 @@ package lexer
 
 // Contract shared by every state function (a value of type lexFn).
 //@ functype lexFn(l)
-//@ requires LInv(l) && !l.done && Pre(self, l)
+//@ requires LInv(l) && Pre(self, l)
 //@ modifies l.start, l.pos, l.line, l.startLine, l.width, l.tokEnd, l.done
-//@ ensures LInv(l)
-//@ ensures result == nil ==> l.done
-//@ ensures result != nil ==> !l.done && Pre(result, l)
+//@ ensures LInv(l) && (old(l.done) ==> l.done)
+//@ ensures result == nil ==> l.done && !old(l.done)
+//@ ensures result != nil ==> Pre(result, l)
 //@ ensures result != nil ==> l.start > old(l.start) || (l.start == old(l.start) && rank(result) < rank(self))
 
 //@ func (*Lexer).next
@@ -87,12 +87,13 @@ package lexer
 
 // emit sends exactly one token; the assertions at the send are the statement of C16.
 //@ func (*Lexer).emit
-//@ requires LInv(l) && !l.done
+//@ requires LInv(l)
 //@ requires t != token.ERROR
 //@ requires t == token.EOF ==> l.start == len(l.input)
 //@ modifies l.start, l.startLine, l.tokEnd, l.done
 //@ ensures LInv(l) && l.start == l.pos && l.tokEnd == l.pos && l.start >= old(l.start)
-//@ ensures l.done == (t == token.EOF)
+//@ ensures !old(l.done) && l.done == (t == token.EOF)
+//@ at call send#0: blockif l.done
 //@ at call send#0: assert [tile-type] sent.Type == t
 //@ at call send#0: assert [tile-text] 0 <= sent.Pos && sent.Pos + len(sent.Value) <= len(l.input) && sent.Value == l.input[sent.Pos : sent.Pos + len(sent.Value)]
 //@ at call send#0: assert [tile-order] l.tokEnd <= sent.Pos && spaceRun(l.input, l.tokEnd, sent.Pos)
@@ -103,9 +104,10 @@ package lexer
 //@ at call send#0: ghost l.done = (t == token.EOF)
 
 //@ func (*Lexer).error
-//@ requires LInv(l) && !l.done && err != nil
+//@ requires LInv(l) && err != nil
 //@ modifies l.done
-//@ ensures result == nil && l.done && LInv(l)
+//@ ensures result == nil && l.done && !old(l.done) && LInv(l)
+//@ at call send#0: blockif l.done
 //@ at call send#0: assert [err-type] sent.Type == token.ERROR
 //@ at call send#0: ghost l.done = true
 
@@ -120,7 +122,7 @@ package lexer
 //@ requires LInv(l) && !l.done && l.start == l.pos
 //@ modifies l.start, l.pos, l.line, l.startLine, l.width, l.tokEnd, l.done
 //@ ensures l.done
-//@ loop 0: invariant LInv(l) && (state != nil ==> !l.done && Pre(state, l)) && (state == nil ==> l.done)
+//@ loop 0: invariant LInv(l) && (state != nil ==> Pre(state, l)) && (state == nil ==> l.done)
 //@ loop 0: decreases (l.done ? 0 : 1), len(l.input) - l.start, rank(state)
 
 //@ func New
@@ -134,7 +136,7 @@ package lexer
 
 //@ func lexComment
 //@ implements lexer.lexFn
-//@ loop 0: invariant LInv(l) && !l.done && l.start == old(l.start) && l.tokEnd == old(l.tokEnd)
+//@ loop 0: invariant LInv(l) && l.done == old(l.done) && l.start == old(l.start) && l.tokEnd == old(l.tokEnd)
 //@ loop 0: decreases len(l.input) - l.pos
 
 //@ func lexTaskKeyword
@@ -158,14 +160,22 @@ package lexer
 //@ func lexTaskBody
 //@ implements lexer.lexFn
 
+//@ func lexTaskCommands
+//@ implements lexer.lexFn
+//@ loop 0: invariant LInv(l) && l.start >= old(l.start) && (old(l.done) ==> l.done)
+//@ loop 0: decreases (l.done ? 0 : 1), len(l.input) - l.pos
+//@ at call skipWhitespace#0: use skipWS_unfold(l.input, l.pos)
+//@ at call skipWhitespace#1: use skipWS_unfold(l.input, l.pos)
+//@ at call skipWhitespace#1: use skipWS_unfold(l.input, l.pos + 1)
+
 //@ func lexTaskName
 //@ implements lexer.lexFn
-//@ loop 0: invariant LInv(l) && !l.done && l.start == old(l.start) && l.tokEnd == old(l.tokEnd)
+//@ loop 0: invariant LInv(l) && l.done == old(l.done) && l.start == old(l.start) && l.tokEnd == old(l.tokEnd)
 //@ loop 0: decreases len(l.input) - l.pos
 
 //@ func lexIdent
 //@ implements lexer.lexFn
-//@ loop 0: invariant LInv(l) && !l.done && l.start == old(l.start) && l.tokEnd == old(l.tokEnd)
+//@ loop 0: invariant LInv(l) && l.done == old(l.done) && l.start == old(l.start) && l.tokEnd == old(l.tokEnd)
 //@ loop 0: invariant l.start < l.pos || isIdentRune(runeAt(l.input, l.pos))
 //@ loop 0: decreases len(l.input) - l.pos
 
@@ -181,7 +191,7 @@ package lexer
 
 //@ func lexString
 //@ implements lexer.lexFn
-//@ loop 0: invariant LInv(l) && !l.done && l.start == old(l.start) && l.tokEnd == old(l.tokEnd) && l.start < l.pos
+//@ loop 0: invariant LInv(l) && l.done == old(l.done) && l.start == old(l.start) && l.tokEnd == old(l.tokEnd) && l.start < l.pos
 //@ loop 0: decreases len(l.input) - l.pos
 
 //@ func unexpectedToken
